@@ -87,7 +87,7 @@ def pd_concat(eng, recv, args, node):
     return _new_frame(eng, total)
 
 
-REG.dep_classes['module:pd'] = {'DataFrame': pd_DataFrame, 'str_concat': pd_concat}
+REG.dep_classes['module:pd'] = {'DataFrame': pd_DataFrame, 'concat': pd_concat}
 
 
 # ---- numpy.random (assumed) ---------------------------------------------------------------------------------------------------
